@@ -20,7 +20,7 @@ def run(tier):
                                        "r3": attr("p1", "far", req=("fwd", "rcpt", "del"), time=True)})
     f2 = dict(peers=P, enabled=ev, cat={"r4": attr("p1", "far", req=("del", "fwd"), hop=(2, 2)), "r5": attr("p1", "far", hasunk=True, unkf=("report",)),
                                        "r6": attr("p1", "far", req=all4, hasunk=True, unkf=("delete", "report"), time=True)})
-    f3 = dict(peers=P, enabled=ev, cat={"r7": attr("p1", "app", admin=True), "r8": attr("p1", "far", req=all4, rptlocal=True), "r13": attr("p2", "app", req=all4, rptlocal=True, rptalias=True), "r14": attr("p1", "far", prev="p1", req=all4, rptnone=True),
+    f3 = dict(peers=P, enabled=ev, cat={"r7": attr("p1", "app", admin=True), "r8": attr("p1", "far", req=all4, rptlocal=True, rptnoagent=True), "r13": attr("p2", "app", req=all4, rptlocal=True, rptalias=True), "r14": attr("p1", "far", prev="p1", req=all4, rptnone=True),
                                        "r9": attr("p1", "p2", req=("rcpt", "fwd"), frag=True), "r11": attr("p1", "far", admin=True, hasunk=True, unkf=("delete",))})
     f4 = dict(peers=P, enabled=ev + ["Advance", "CleanTick"], cat={"r10": attr("p1", "far", req=("del", "fwd"), life="short"), "r12": attr("p2", "app", req=("dlv",), time=True)})
     plans = []
